@@ -9,8 +9,8 @@ META = {
     "property_id": "C17",
     "technique": "TLC model checking of FileTransfer.tla (the plugin's reassembly state machine as coded, driven by a sender that "
                  "injects every single fault at every position, two interleaved transfers, unrelated messages) + every finished "
-                 "behaviour replayed on the real FileTransferPlugin with real verbose DLT messages built by adlt's dlt_args! "
-                 "encoder (prediction fast path on state kinds and saved bytes) + seeded random scripts with real sizes; all "
+                 "behaviour replayed on the real FileTransferPlugin with real verbose DLT messages (adlt's dlt_args! encoder, and for a quarter of the cases an independent raw encoder: "
+                 "big / little endian per message, every integer width and signedness, ASCII / UTF-8 names) (prediction fast path on state kinds and saved bytes) + seeded random scripts with real sizes; all "
                  "slow-path and random runs validated by TLC against the contract FileTransferTrace.tla (the statement, decided "
                  "from the wire: complete => all packages arrived in order and saved bytes = original; all in order => complete; "
                  "auto-save confined, never overwriting)",
@@ -286,4 +286,4 @@ def check(ctx):
     ctx.assumptions = ["TLC 1.8.0 and CommunityModules are correct",
                        "driver projection is correct: transfer key parsed from the tooltip, kind from iconPath/label prefix, byte equality",
                        "at most one fault per transfer; with a lost announcement only safety is required",
-                       "messages are little-endian verbose DLT messages built with adlt's own dlt_args! encoder"]
+                       "messages are verbose DLT messages: three quarters of the cases little endian with u32 / i32 numbers built by adlt's own dlt_args! encoder, one quarter (cfg.enc = 1) with mixed wire encodings from an independent raw encoder - per message big or little endian, every number in a random width / signedness in which it fits (u8..u64, i8..i64), file names with ASCII or UTF-8 coding"]
